@@ -65,6 +65,7 @@ type Prop struct {
 	ObserveHarness []string // harness functions run natively AND through the engine on concrete vectors; their observations must agree
 	TestFiles []string // extra _test overlay files under /verif/harness
 	Instrument []Instr // textual instrumentation of repo files, applied in the overlay (symbolic and native alike)
+	ReplayRace bool // replay under the race detector; a DATA RACE report reproduces "readonly" obligations
 	Custom    func(p *Prop, tier string, seed int, evPath string) int // property-specific driver
 	Bounds    []string
 	Assumptions []string
@@ -243,7 +244,7 @@ func (sc *scratch) replay(p *Prop, cases []replayCase) ([]replayResult, string, 
 	cf := filepath.Join(sc.dir, "cases.json")
 	b, _ := json.Marshal(cases)
 	os.WriteFile(cf, b, 0o644)
-	out, err := sc.goTest(p, "^TestVerifReplay$", []string{"VERIF_REPLAY_FILE=" + cf}, false, 10*time.Minute)
+	out, err := sc.goTest(p, "^TestVerifReplay$", []string{"VERIF_REPLAY_FILE=" + cf}, p.ReplayRace, 10*time.Minute)
 	res := make([]replayResult, len(cases))
 	found := 0
 	for _, m := range replayLine.FindAllStringSubmatch(out, -1) {
@@ -251,6 +252,14 @@ func (sc *scratch) replay(p *Prop, cases []replayCase) ([]replayResult, string, 
 		if i < len(res) {
 			json.Unmarshal([]byte(m[2]), &res[i])
 			found++
+		}
+	}
+	if p.ReplayRace && strings.Contains(out, "WARNING: DATA RACE") {
+		for i := range res {
+			if strings.Contains(cases[i].Obligation, ".readonly.") {
+				res[i].Failures = append(res[i].Failures, cases[i].Obligation)
+				res[i].Note = "race detector: DATA RACE while two goroutines execute the statement"
+			}
 		}
 	}
 	if found != len(cases) {
